@@ -20,6 +20,19 @@ Require Import V.Proofs.C06OracleProofs.
 Require Import V.Oracle.C06Oracle.
 Require Import V.Oracle.C07Oracle.
 Require Import V.Proofs.C07OracleProofs.
+Require Import V.Model.RingAgent.
+Require Import V.Proofs.RingLog.
+Require Import V.Proofs.RingQuiet.
+Require Import V.Proofs.RingAgentInv.
+Require Import V.Proofs.RingAgentRun.
+Require Import V.Proofs.RingStuck.
+Require Import V.Proofs.RingStuckForever.
+Require Import V.Proofs.RingSweepLog.
+Require Import V.Oracle.C07UOracle.
+Require Import V.Proofs.C07UOracleProofs.
+Require Import V.Proofs.C06ConcOracle.
+Require Import V.Proofs.C07CrashOracle.
+Require Import V.Proofs.RingSim.
 Open Scope Z_scope.
 
 (* every configuration reachable under any schedule (positions below 2^62) satisfies the invariant *)
@@ -150,3 +163,265 @@ Example C07_example_unblock_true :
 Proof. split; [| repeat split; vm_compute; try reflexivity; right; reflexivity].
   assert (E : replay_ok 8 Debug ex_d0 [1; 1; 1; 2; 2; 2; 2; 2; 2]%nat = Some ex_d) by (vm_compute; reflexivity).
   exact (replay_reach _ _ _ _ _ _ E (reach_refl _ _ _)). Qed.
+
+(* ---------------------------------------------------------------------------------------------------------------
+   unblock() interleaved with surviving producers (Model/RingAgent.v).  Thread 0 is the consumer-side agent: a
+   program of reads and unblock() calls, unblock as a pc-machine over the accesses the hook reports (head, tail,
+   length word at the consumer index, forward scan, scan_back_to_confirm_still_zeroed, store of the padding header).
+   `dead` is any set of producers that take no step any more; every other producer may be anywhere inside write
+   while unblock scans, between its scan and its store, and afterwards.  XInv = the C06 invariant for the embedded
+   configuration + what unblock has established at its pc, over the present state only (Proofs/RingAgentInv.v). *)
+
+(* the threads may be started on any ring a sequential run left behind, whatever the agent's program *)
+Theorem C07_conc_initial : forall dead R ops progs,
+  wf R -> Forall (Forall wreq_ok) progs -> r_tail R + 2 * r_cap R <= two62 ->
+  XInv (r_hc R) dead (xstart R ops progs).
+Proof. exact xinv_start. Qed.
+Print Assumptions C07_conc_initial.
+
+(* every step of every thread - survivors inside write, the agent's reads, every access of unblock including a failing
+   scan_back_to_confirm_still_zeroed - preserves XInv.  The store of the padding header does so whenever the slots the
+   padding covers belong to dead producers and are uncommitted (`put_safe`, what the algorithm assumes of producers
+   blocked for longer than its timeout): then the memory after the store (`render` equal) is the memory of a
+   configuration that satisfies XInv again in which the swept claims - all of dead producers, never committed - are one
+   padding slot at the consumer position and their owners are out of the game. *)
+Theorem C07_conc_step : forall lo dead m x tid x' e,
+  XInv lo dead x -> xstep m x tid = Some (x', e) -> (forall i, tid = S i -> ~ dead i) -> in_xwindow x' ->
+  (forall h L, a_mode (ag_agent x) = AUnblocking (UPut h L) -> tid = O -> put_safe dead (ag_ring x) h L) ->
+  XInv lo dead x' \/
+  (exists h L swept suffix pad, a_mode (ag_agent x) = AUnblocking (UPut h L) /\ tid = O /\
+     r_slots (ag_ring x) = swept ++ suffix /\ swept <> [] /\ Forall (fun s => s_len s <= 0 /\ owner_dead dead s) swept /\
+     s_type pad = PAD /\ s_pos pad = r_head (ag_ring x) /\ s_span pad = span_sum swept /\
+     ag_ring x' = set_slots (ag_ring x) (put_hdr (r_slots (ag_ring x)) h L PAD) /\ ag_prods x' = ag_prods x /\
+     let xd := mkACfg (set_slots (ag_ring x) (pad :: suffix)) (ag_agent x') (retire swept (ag_prods x)) in
+     XInv lo dead xd /\ render (ag_ring xd) = render (ag_ring x')).
+Proof. exact xstep_inv. Qed.
+Print Assumptions C07_conc_step.
+
+(* hence: every configuration reachable by any schedule of the live threads, with unblock anywhere in its scan, satisfies XInv
+   (up to a store of a padding header, for which C07_conc_step gives the configuration with the same memory) *)
+Theorem C07_conc_reachable : forall lo dead m x0 x, XInv lo dead x0 -> xreach dead m x0 x -> XInv lo dead x.
+Proof. exact xreach_inv. Qed.
+Print Assumptions C07_conc_reachable.
+
+(* ... and beyond the store.  The model keeps the swept claims as separate slots behind the head slot's padding header;
+   `sim x xd` relates such a configuration to its description xd with one padding slot: same agent, same counters, same
+   memory (`C07_conc_sim_memory`), same producers except that the dead owners of swept claims are retired in xd.  Every step
+   of a live thread from x is matched by the same step (same event) from xd (`C07_conc_sim_step`), so XInv' x = "x is
+   similar to a configuration that satisfies XInv" is preserved by *every* step, the padding stores included, as long as each
+   store covers only uncommitted claims of dead producers (`C07_conc_step_all`), hence holds in every configuration reachable by
+   any schedule of the live threads with any number of unblock() calls, successful or not (`C07_conc_reachable_all`). *)
+Theorem C07_conc_sim_step : forall lo dead m xu xd tid xu' e,
+  sim dead xu xd -> XInv lo dead xd -> xstep m xu tid = Some (xu', e) -> (forall i, tid = S i -> ~ dead i) ->
+  exists xd', xstep m xd tid = Some (xd', e) /\ sim dead xu' xd'.
+Proof. exact sim_step. Qed.
+Print Assumptions C07_conc_sim_step.
+
+Theorem C07_conc_sim_memory : forall dead x xd, sim dead x xd -> render (ag_ring x) = render (ag_ring xd) /\
+  r_head (ag_ring x) = r_head (ag_ring xd) /\ r_tail (ag_ring x) = r_tail (ag_ring xd) /\ ag_agent x = ag_agent xd.
+Proof. exact sim_render. Qed.
+Print Assumptions C07_conc_sim_memory.
+
+Theorem C07_conc_step_all : forall lo dead m x tid x' e,
+  XInv' lo dead x -> xstep m x tid = Some (x', e) -> (forall i, tid = S i -> ~ dead i) -> in_xwindow x' ->
+  (forall h L, a_mode (ag_agent x) = AUnblocking (UPut h L) -> tid = O -> put_safe dead (ag_ring x) h L) ->
+  XInv' lo dead x'.
+Proof. exact xstep_inv'. Qed.
+Print Assumptions C07_conc_step_all.
+
+Theorem C07_conc_reachable_all : forall lo dead m x0 x, XInv' lo dead x0 -> xreach_all dead m x0 x -> XInv' lo dead x.
+Proof. exact xreach_all_inv. Qed.
+Print Assumptions C07_conc_reachable_all.
+
+(* what one access of unblock does: it goes on with a justified pc on the same ring, or returns false on the same
+   ring, or it is the store *)
+Theorem C07_conc_unblock_access : forall lo dead R prods u R' nxt e,
+  Inv lo (qcfg R prods) -> unb_ok dead R u -> ustep R u = (R', nxt, e) ->
+  match nxt with
+  | inl u' => R' = R /\ unb_ok dead R u'
+  | inr false => R' = R
+  | inr true => exists h L, u = UPut h L /\ R' = set_slots R (put_hdr (r_slots R) h L PAD)
+  end.
+Proof. intros lo dead R prods u R' nxt e HI. exact (ustep_ok lo dead R prods HI u R' nxt e). Qed.
+Print Assumptions C07_conc_unblock_access.
+
+(* the store itself: under put_safe the padding has the properties C07_unblock lists for the sequential unblock *)
+Theorem C07_conc_put : forall lo dead R prods h L,
+  Inv lo (qcfg R prods) -> unb_ok dead R (UPut h L) -> put_safe dead R h L ->
+  exists s1 rest, pad_facts R s1 rest L /\ put_hdr (r_slots R) h L PAD = set_hdr L PAD s1 :: rest.
+Proof. exact put_facts. Qed.
+Print Assumptions C07_conc_put.
+
+(* C07_stuck as an iff: with an uncommitted claim at the consumer position unblock answers false exactly when the header
+   of that claim was never written and every length word the forward scan looks at - consumer index + 8, then + 16, ...
+   below the scan limit (producer index if it is ahead of the consumer index, else the capacity) - is zero *)
+Theorem C07_stuck_iff : forall lo cfg s1 rest, Inv lo cfg -> cons_idle (g_cons cfg) ->
+  let R := g_ring cfg in
+  r_slots R = s1 :: rest -> s_len s1 <= 0 ->
+  (snd (unblock R) = false <->
+   s_len s1 = 0 /\ forall k, visited (r_head R mod r_cap R + 8) (scan_limit R) k -> word_at (render R) k = 0).
+Proof. exact stuck_iff. Qed.
+Print Assumptions C07_stuck_iff.
+
+(* ... and "for ever": when every claim from the consumer position to the end of the data area was never written and
+   belongs to dead producers (e.g. a producer dead right after the compare-and-set of a claim that wrapped), that stays so
+   under every step of every other thread, the agent's reads hand out nothing and its unblock() calls answer false *)
+Theorem C07_stuck_forever : forall lo dead m x tid x' e,
+  XInv lo dead x -> stuck_ring dead (ag_ring x) -> calm (ag_ring x) (a_mode (ag_agent x)) ->
+  xstep m x tid = Some (x', e) -> (forall i, tid = S i -> ~ dead i) -> in_xwindow x' ->
+  XInv lo dead x' /\ stuck_ring dead (ag_ring x') /\ calm (ag_ring x') (a_mode (ag_agent x')) /\
+  r_head (ag_ring x') = r_head (ag_ring x) /\
+  exists extra, a_res (ag_agent x') = a_res (ag_agent x) ++ extra /\ Forall quiet_res extra.
+Proof. exact stuck_step. Qed.
+Print Assumptions C07_stuck_forever.
+
+(* C07_after for the ghost log of C06: the configuration that describes the memory after a successful unblock satisfies
+   the log invariant again; the writes in flight of the retired (dead) producers left the log with their slots, everything
+   else - what was delivered, all other pending records, their order - is the same *)
+Theorem C07_after_log : forall lo cfg, Inv lo cfg -> LogInv cfg -> cons_idle (g_cons cfg) ->
+  let R := g_ring cfg in
+  snd (unblock R) = true ->
+  exists swept suffix pad,
+    r_slots R = swept ++ suffix /\ swept <> [] /\ Forall (fun s => s_len s <= 0) swept /\
+    s_type pad = PAD /\ s_pos pad = r_head R /\ s_span pad = span_sum swept /\
+    let cfg' := mkCfg (set_slots R (pad :: suffix)) (g_cons cfg) (retire swept (g_prods cfg)) in
+    Inv lo cfg' /\ LogInv cfg' /\ render (g_ring cfg') = render (fst (unblock R)) /\
+    log cfg' = map tag2 (delivered (g_cons cfg)) ++ tags_of suffix /\
+    log cfg = map tag2 (delivered (g_cons cfg)) ++ tags_of swept ++ tags_of suffix.
+Proof. exact after_unblock_log. Qed.
+Print Assumptions C07_after_log.
+
+(* the whole-run oracle `holds_crash`, scheduled phase, for every run of the thread model with arbitrary crash points: the
+   prelude is accepted by the FIFO interpreter, the positions along the trace are ordered, the claims read off the trace give
+   a list of committed commands, and what the consumer thread delivered is a prefix, in position order, of the prelude's
+   pending commands followed by the committed ones.  (The remaining conjuncts of holds_crash concern the sequential epilogue:
+   each unblock() there satisfies unblock_ok by C07_oracle_unblock, each read after a successful unblock makes progress by
+   C07_progress; the walk as a whole is not proved, see docs/reports/C07.md.) *)
+Theorem C07_oracle_crash_sched : forall m cp p0 hc0 c0 pre limits progs sched stops post,
+  seq_domain cp p0 hc0 c0 pre -> Forall (Forall wreq_ok) progs -> NoDup (map fst (concat progs)) ->
+  p0 + 2 * cp * (Z.of_nat (length pre) + Z.of_nat (length (concat progs)) + 1) <= two62 ->
+  let obs := run_conc m (init cp p0 hc0 c0) pre limits progs sched stops post in
+  let o1 := fst (fst (fst obs)) in let tr := snd (fst (fst obs)) in let res := snd (fst obs) in
+  (exists l rest, res = TCons l :: rest) ->
+  exists d0 cm0 s1 cons_r rest,
+    res = cons_r :: rest /\ delivered_by cons_r = Some d0 /\
+    committed_cmds progs (claims_of cp tr) = Some cm0 /\ check_to cp (mkOst [] p0 p0 []) pre o1 = Some s1 /\
+    positions_ok cp tr (fst (last_ht p0 o1)) (snd (last_ht p0 o1)) = true /\
+    is_prefix d0 (map cmsg (o_q s1) ++ cm0) = true.
+Proof. exact oracle_crash_sched. Qed.
+Print Assumptions C07_oracle_crash_sched.
+
+(* non-vacuity: producer 1 is stopped for ever after its header store, producer 2 and the consumer finish *)
+Definition exc_progs : list (list wreq) := [[(1, payload 0 8)]; [(2, payload 1 3); (3, payload 2 0)]].
+Definition exc_obs := run_conc Debug (init 64 40 40 0) [OpWrite 14 (payload 99 8)] [2; 2147483647] exc_progs
+                        (unrle [(1, 400); (2, 400); (0, 400)]) [-1; 4; -1] [OpDump; OpUnblock; OpDump; OpRead 2147483647; OpDump].
+Example C07_oracle_crash_sched_example :
+  seq_domain 64 40 40 0 [OpWrite 14 (payload 99 8)] /\ Forall (Forall wreq_ok) exc_progs /\ NoDup (map fst (concat exc_progs)) /\
+  (exists l rest, snd (fst exc_obs) = TCons l :: rest) /\
+  nth 1 (snd (fst exc_obs)) TPanicked = TStop /\
+  holds_crash 64 40 [OpWrite 14 (payload 99 8)] exc_progs [OpDump; OpUnblock; OpDump; OpRead 2147483647; OpDump] exc_obs = true.
+Proof. split; [| split; [| split; [| split; [| split]]]].
+  - unfold seq_domain. split; [exists 6; split; [lia | reflexivity] |].
+    repeat split; try (vm_compute; congruence); try reflexivity. constructor; [right; reflexivity | constructor].
+  - repeat (constructor; try (right; reflexivity)).
+  - vm_compute. repeat constructor; cbn; intuition discriminate.
+  - eexists. eexists. vm_compute. reflexivity.
+  - vm_compute. reflexivity.
+  - vm_compute. reflexivity.
+Qed.
+
+(* part (1) of the trace oracle of the uconc cases (Oracle/C07UOracle.v, `confirm_ok`: the padding store is justified by
+   what that unblock() call itself read) is true of the model's unblock in every interleaving: `reads_inv ci u rs` relates the
+   program counter of the call to the (offset, value) pairs of its length-word reads so far (newest first); it is preserved by
+   every access of the call whatever ring it finds (the other threads may have done anything in between), and at the store it
+   is what confirm_ok demands *)
+Theorem C07_oracle_confirm_step : forall cp ci R u R' u' e rs, cap_ok cp -> r_cap R = cp ->
+  (exists h, pc_head u = Some h /\ h mod cp = ci) ->
+  match u with UReadLen _ _ | UScan _ _ _ | UBack _ _ _ => True | _ => False end ->
+  reads_inv ci u rs -> ustep R u = (R', inl u', e) ->
+  reads_inv ci u' (read_of e :: rs) /\ pc_head u' = pc_head u.
+Proof. exact reads_step. Qed.
+Print Assumptions C07_oracle_confirm_step.
+
+Theorem C07_oracle_confirm : forall ci L rs, 0 <= ci -> reads_inv ci (UPut 0 L) rs -> confirm_ok rs ci L = true.
+Proof. exact reads_confirm. Qed.
+Print Assumptions C07_oracle_confirm.
+
+Example C07_oracle_confirm_example :
+  reads_inv 8 (UPut 8 16) [(8, 0); (16, 0); (24, -8); (16, 0); (8, 0)] /\
+  confirm_ok [(8, 0); (16, 0); (24, -8); (16, 0); (8, 0)] 8 16 = true /\
+  confirm_ok [(16, 0); (24, -8); (16, 0); (8, 0)] 8 16 = false.
+Proof. split; [| split; vm_compute; reflexivity]. right. exists 1%nat, (-8). split; [reflexivity |]. split; [lia | reflexivity]. Qed.
+
+(* ---- non-vacuity: a survivor is inside write while unblock is between its scan and its store ---- *)
+Definition exu_x0 : aconfig := xstart (init 64 8 8 0) [CoUnblock] [[(1, payload 0 8)]; [(2, payload 1 0)]].
+(* producer 1 claims 16 bytes at position 8 and dies right after its compare-and-set *)
+Definition exu_x1 : aconfig := match xreplay [] Debug exu_x0 [1; 1; 1]%nat with Some x => x | None => exu_x0 end.
+(* producer 2 claims behind it and writes its header; unblock reads head, tail, the zero length word at 8, the zero word
+   at 16, the header of producer 2 at 24; producer 2 copies its payload; unblock confirms 16 and 8 *)
+Definition exu_x2 : aconfig :=
+  match xreplay [0%nat] Debug exu_x1 [2; 2; 2; 2; 0; 0; 0; 0; 2; 0; 0; 0]%nat with Some x => x | None => exu_x1 end.
+
+Example C07_conc_example :
+  XInv 8 (fun i => In i [0%nat]) exu_x2 /\
+  a_mode (ag_agent exu_x2) = AUnblocking (UPut 8 16) /\ map p_pc (ag_prods exu_x2) = [PHdr 8; PCommit 24] /\
+  put_safe (fun i => In i [0%nat]) (ag_ring exu_x2) 8 16 /\
+  (* the store: the padding covers exactly the dead claim; the survivor's record stays in front of the consumer *)
+  exists x3 e, xstep Debug exu_x2 0 = Some (x3, e) /\
+    r_slots (ag_ring x3) = [mkSlot 8 16 16 PAD [] 1 0; mkSlot 24 8 (-8) 2 [] 2 0] /\ a_res (ag_agent x3) = [AUnb true].
+Proof.
+  assert (H0 : XInv 8 (fun i => In i []) exu_x0).
+  { change (XInv (r_hc (init 64 8 8 0)) (fun i => In i []) (xstart (init 64 8 8 0) [CoUnblock] [[(1, payload 0 8)]; [(2, payload 1 0)]])).
+    apply xinv_start.
+    - apply wf_init; [exists 6; split; [lia | reflexivity] | lia | reflexivity].
+    - repeat (constructor; try (right; reflexivity)).
+    - cbn. unfold two62. lia. }
+  assert (H1 : XInv 8 (fun i => In i []) exu_x1).
+  { apply (xreplay_inv 8 [] Debug [1; 1; 1]%nat exu_x0); [exact H0 | vm_compute; reflexivity]. }
+  assert (H1' : XInv 8 (fun i => In i [0%nat]) exu_x1) by (apply (xinv_dead_change 8 _ _ _ H1); vm_compute; exact I).
+  assert (H2 : XInv 8 (fun i => In i [0%nat]) exu_x2).
+  { apply (xreplay_inv 8 [0%nat] Debug [2; 2; 2; 2; 0; 0; 0; 0; 2; 0; 0; 0]%nat exu_x1); [exact H1' | vm_compute; reflexivity]. }
+  split; [exact H2 |]. split; [vm_compute; reflexivity |]. split; [vm_compute; reflexivity |]. split.
+  - intros s Hs Hp. vm_compute in Hs. destruct Hs as [<- | [<- | []]].
+    + split; [exists 0%nat; split; [reflexivity | left; reflexivity] | cbn; lia].
+    + exfalso. revert Hp. vm_compute. discriminate.
+  - eexists. eexists. split; [vm_compute; reflexivity |]. split; vm_compute; reflexivity.
+Qed.
+
+(* non-vacuity of C07_conc_reachable_all: the run of C07_conc_example continued through the store, the survivor's commit and
+   beyond satisfies XInv' *)
+Example C07_conc_example_all :
+  exists x3 e, xstep Debug exu_x2 0 = Some (x3, e) /\ XInv' 8 (fun i => In i [0%nat]) x3 /\
+    exists x4 e', xstep Debug x3 2 = Some (x4, e') /\ XInv' 8 (fun i => In i [0%nat]) x4 /\ map p_pc (ag_prods x4) = [PHdr 8; PDone].
+Proof.
+  destruct C07_conc_example as (H2 & Em & _ & Hsafe & _).
+  destruct (xstep Debug exu_x2 0) as [[x3 e] |] eqn:E3; [| vm_compute in E3; discriminate].
+  assert (H3 : XInv' 8 (fun i => In i [0%nat]) x3).
+  { apply (xstep_inv' 8 (fun i => In i [0%nat]) Debug exu_x2 0%nat x3 e (xinv'_of _ _ _ H2) E3).
+    - intros i Hi. discriminate.
+    - vm_compute in E3. inversion E3; subst. vm_compute. discriminate.
+    - intros h L Em' _. rewrite Em in Em'. inversion Em'; subst. exact Hsafe. }
+  exists x3, e. split; [reflexivity |]. split; [exact H3 |].
+  destruct (xstep Debug x3 2) as [[x4 e'] |] eqn:E4; [| vm_compute in E3; inversion E3; subst; vm_compute in E4; discriminate].
+  exists x4, e'. split; [reflexivity |]. split.
+  - apply (xstep_inv' 8 (fun i => In i [0%nat]) Debug x3 2%nat x4 e' H3 E4).
+    + intros i Hi. inversion Hi; subst. intros [Hd | []]. discriminate.
+    + vm_compute in E3. inversion E3; subst. vm_compute in E4. inversion E4; subst. vm_compute. discriminate.
+    + intros h L _ Ht. discriminate.
+  - vm_compute in E3. inversion E3; subst. vm_compute in E4. inversion E4; subst. vm_compute. reflexivity.
+Qed.
+
+(* C07_inflight_limits - what the theorems above do not cover, and cannot: the owner of a swept claim is alive.  Producer 1
+   dies after its compare-and-set, producer 2 claims behind it, producer 3 commits behind that; unblock scans forward over both
+   blank claims to producer 3's header and confirms backwards; *then* producer 2 writes its header, its payload and commits
+   (write returns Ok); unblock stores a padding of 24 bytes that covers producer 2's committed record: the next read delivers
+   only producer 3's command.  The implementation does exactly the same (corpus/C07/inflight-limit.json). *)
+Definition exl_x0 : aconfig := xstart (init 64 8 8 0) [CoUnblock] [[(1, payload 0 0)]; [(2, payload 1 8)]; [(3, payload 2 0)]].
+Fixpoint xgo (x : aconfig) (s : list nat) : aconfig :=
+  match s with [] => x | t :: r => match xstep Debug x t with Some (x', _) => xgo x' r | None => x end end.
+Definition exl_x : aconfig := xgo exl_x0 ([1; 1; 1] ++ [2; 2; 2] ++ repeat 3 6 ++ repeat 0 9 ++ [2; 2; 2] ++ [0])%nat.
+Example C07_inflight_limits :
+  a_res (ag_agent exl_x) = [AUnb true] /\ map p_res (ag_prods exl_x) = [[]; [Ok 0]; [Ok 0]] /\
+  map (fun s => (s_pos s, s_len s, s_type s)) (r_slots (ag_ring exl_x)) = [(8, 24, PAD); (16, 16, 2); (32, 8, 3)] /\
+  snd (read Debug (ag_ring exl_x) 100) = Ok (1, [(3, [])]).
+Proof. repeat split; vm_compute; reflexivity. Qed.
